@@ -294,6 +294,9 @@ namespace pika::ensure_started_detail {
                 // shared state by now.
                 os.reset();
 
+#if defined(PIKA_VERIF)
+                PIKA_VERIF_POINT(311, this);
+#endif
                 predecessor_done = true;
 
                 {
@@ -329,9 +332,15 @@ namespace pika::ensure_started_detail {
                     // the vector must see predecessor_done = true after
                     // taking the lock in their threads and will not add
                     // continuations to the vector.
+#if defined(PIKA_VERIF)
+                    PIKA_VERIF_POINT(312, this);
+#endif
                     std::lock_guard<mutex_type> l{mtx};
                 }
 
+#if defined(PIKA_VERIF)
+                PIKA_VERIF_POINT(313, this);
+#endif
                 if (continuation)
                 {
                     (*continuation)();
@@ -344,6 +353,9 @@ namespace pika::ensure_started_detail {
             {
                 PIKA_ASSERT(!continuation.has_value());
 
+#if defined(PIKA_VERIF)
+                PIKA_VERIF_POINT(314, this);
+#endif
                 if (predecessor_done)
                 {
                     // If we read predecessor_done here it means that one of
@@ -359,6 +371,9 @@ namespace pika::ensure_started_detail {
                 {
                     // If predecessor_done is false, we have to take the
                     // lock to potentially store the continuation.
+#if defined(PIKA_VERIF)
+                    PIKA_VERIF_POINT(315, this);
+#endif
                     std::unique_lock<mutex_type> l{mtx};
 
                     if (predecessor_done)
